@@ -625,6 +625,32 @@ AskOwed(lk, fu2) ==
              ELSE "found instance whose SRV is known but no address: the host's addresses were not asked for within a second", f, lk[f].since, T>>)
          : f \in Dom(lk)}
 
+(* ------------------- the loop's own bookkeeping when it parks ------------ *)
+(* (hook publish_loop: the timer heap - its size and the earliest 40 entries - and the queued re-runs with kind and key) *)
+(* C12.loop-wake   the wake-up asked for is the earliest timer (a timer that has passed: one millisecond)               *)
+(* C12.loop-cover  every queued re-run has a timer of its own, so the earliest timer is never later than a re-run      *)
+(* C19.loop-one    one chain of re-runs per search and per unresolved instance: browsing again replaces, follow-ups do *)
+(*                 not multiply                                                                                         *)
+(* C13.loop-stopped  no re-run is left of a search that is over                                                         *)
+LoopChecks(ch) ==
+  IF ~("loop" \in DOMAIN Ev) \/ ~Ev.loop \/ ~Ev.alive THEN {}
+  ELSE
+    LET tm == Ev.tm   rr == Range(Ev.rr)
+        hasTimer(t) == (\E j \in 1..Len(tm) : tm[j] = t) \/ (Len(tm) = 40 /\ t > tm[40])
+        of(k) == {r \in rr : r.k = k}
+        keysOf(k) == {r.keyk : r \in of(k)}
+        boundKeys(kind) == {ch[x].key : x \in {y \in Dom(ch) : ch[y].kind = kind /\ ch[y].bound}}
+    IN V("C12.loop-wake", Ev.wake = (IF Ev.ntm = 0 THEN 0 - 1 ELSE IF tm[1] > T THEN tm[1] ELSE T + 1),
+         <<"the wake-up asked for is not the earliest timer", Ev.wake, IF Ev.ntm = 0 THEN 0 - 1 ELSE tm[1], T>>)
+       \cup UNION {V("C12.loop-cover", hasTimer(r.t), <<"a queued re-run without a timer of its own", r.k, r.t, T>>) : r \in rr}
+       \cup UNION {V("C19.loop-one", Cardinality({r \in of(k) : r.keyk = x}) <= 1,
+                     <<IF k = "Resolve" THEN "more than one chain of follow-up queries queued for one instance"
+                       ELSE "more than one chain of re-runs queued for one search", k, x, Cardinality({r \in of(k) : r.keyk = x})>>)
+                   : <<k, x>> \in UNION {{<<k2, y>> : y \in keysOf(k2)} : k2 \in {"Browse", "ResolveHostname", "Resolve"}}}
+       \cup (IF Ev.pend # 0 THEN {}
+             ELSE UNION {V("C13.loop-stopped", x \in boundKeys("browse"), <<"a query re-run is still queued for a type that is no longer browsed", x>>) : x \in keysOf("Browse")}
+                  \cup UNION {V("C13.loop-stopped", x \in boundKeys("host"), <<"a query re-run is still queued for a host name that is no longer resolved", x>>) : x \in keysOf("ResolveHostname")})
+
 IdleNow == Len(Ev.sent) = 0 /\ Len(Ev.events) = 0 /\ Len(Ev.replies) = 0 /\ inbox = <<>> /\ cmds = <<>>
                  /\ Ev.wake >= 0 /\ Ev.wake <= T + 1
 SpinV == V("C12.nospin", ~(IdleNow /\ streak + 1 = 30),
@@ -657,6 +683,7 @@ Iter ==
                                                        \cup AskOwed(LackStep(lack, s3.tab, s2.chan, s3.fu), s3.fu)
                                                        \cup HostMarksOwed(s1.tab, s3.tab, s2.chan)
                                                        \cup WakeCover(s3.tab, s2.chan, AdvanceSched(s1.sched, s3.used), s3.fu, {v \in s1.verifs : T < v.at + 1000})
+                                                       \cup LoopChecks(s2.chan)
                           ELSE {})
                     \cup KnownAnswerChecks(s1.tab) \cup Everywhere(s3.used) \cup MetricsChecks(s1.tab, s2.chan)
                     \cup QuestionLabels(s1.tab) \cup CacheOnlyQuiet(s2.chan)
@@ -665,6 +692,8 @@ Iter ==
                        \cup (IF \E x \in Dom(s2.chan) : s2.chan[x].resolved # {} THEN {"C03.resolved"} ELSE {})
                        \cup (IF \E i \in Qpk : Len(Sent[i].m.an) > 0 THEN {"C10.known-answer"} ELSE {})
                        \cup (IF \E j \in 1..Len(Ev.replies) : Ev.replies[j].k = "metrics" THEN {"C20.metrics"} ELSE {})
+                       \cup (IF "loop" \in DOMAIN Ev /\ Ev.loop /\ Ev.ntm > 0 THEN {"C12.loop-wake"} ELSE {})
+                       \cup (IF "loop" \in DOMAIN Ev /\ Ev.loop /\ Len(Ev.rr) > 0 THEN {"C12.loop-cover", "C19.loop-one", "C13.loop-stopped"} ELSE {})
                        \cup (IF (\E j \in 1..Len(Ev.replies) : Ev.replies[j].k = "metrics") /\ Len(arrs) = 0 /\ ~\E x \in Dom(s2.chan) : s2.chan[x].bound
                              THEN {"C20.empty"} ELSE {})
   /\ inbox' = <<>> /\ cmds' = <<>>
